@@ -1,7 +1,7 @@
 (** C09 - Truncated or malformed streams never surface as success.
     Statements only; proofs in Proofs/ReaderProofs.v, Proofs/EnvelopeProofs.v, Proofs/ResponseProofs.v. *)
-From VG Require Import Model.Bytes Model.Stream Model.Envelope Model.Reader.
-From VG Require Import Proofs.StreamProofs Proofs.ReaderProofs Proofs.EnvelopeProofs.
+From VG Require Import Model.Bytes Model.Stream Model.Envelope Model.Reader Model.RespMeta Model.Response Model.Serve.
+From VG Require Import Proofs.StreamProofs Proofs.ReaderProofs Proofs.EnvelopeProofs Proofs.TruncProofs.
 Open Scope Z_scope.
 
 (** What readRequestMessage makes of an enveloped request body, by its bytes: a message only when
@@ -62,3 +62,51 @@ Theorem C09_flag_bytes : forall k f b1 b2 b3 b4, wf_byte f = true ->
   (decode_env k [f; b1; b2; b3; b4] = None <-> spec_legal k (Z.of_N f) = false).
 Proof. exact decode_env_flags. Qed.
 Print Assumptions C09_flag_bytes.
+
+(** * The response direction *)
+
+(** The handler returns while what the backend has written stops inside an envelope prefix, inside
+    a message or a trailer frame, or short of a declared Content-Length ([mid_unit] is that state
+    of the body writer): whatever the script was and wherever request-side failures fell, the log
+    of the client's connection then contains an error outcome - in the head, in the end-stream or
+    trailer frame, in the error body or in the trailers, as the client's protocol has it.  By C03
+    that is the only outcome the client gets. *)
+Theorem C09_truncated_response_is_an_error : forall cx h s,
+  let r0 := fst (run_script cx s (rw_init h) []) in
+  c_end_written (r_core r0) = false -> mid_unit (r_w r0) ->
+  log_has_error (c_out (r_core (fst (fst (serve_response cx h s))))) = true.
+Proof. exact truncated_response_is_an_error. Qed.
+Print Assumptions C09_truncated_response_is_an_error.
+
+(** An error that is reported while the end is still open reaches the client, in every client
+    protocol (for Connect unary and REST clients the head is then not out yet, see below). *)
+Theorem C09_reported_error_is_visible : forall cx e c, c_end_written c = false ->
+  (end_must_be_in_headers (w_client cx) = true -> c_flushed c = false) ->
+  log_has_error (c_out (report_error cx e c)) = true.
+Proof. exact report_error_visible. Qed.
+Print Assumptions C09_reported_error_is_visible.
+
+(** For clients whose outcome travels in the head, the head never leaves before the end is known. *)
+Theorem C09_unary_head_waits_for_the_outcome : forall cx s h wr, end_must_be_in_headers (w_client cx) = true ->
+  let c := r_core (fst (run_script cx s (rw_init h) wr)) in c_flushed c = true -> c_end_written c = true.
+Proof. intros cx s h wr Em. apply (run_script_UI cx Em s (rw_init h) wr). intros D. discriminate D. Qed.
+Print Assumptions C09_unary_head_waits_for_the_outcome.
+
+(** Non-vacuity: a gRPC backend announces a 3-byte message and delivers 2 bytes (Connect streaming
+    client), and one that stops inside the second envelope prefix (gRPC-Web client). *)
+Definition ex_wcx (c : cproto) (ce : option envk) : wctx :=
+  mkWctx c SGrpc ce (Some GrpcS) 1000 [s2b "gzip"] (s2b "proto") (s2b "proto") true false
+         (mkOr (fun b => Some b) (fun b => Some b) (fun b => Some b) (fun b => b) (fun _ => false))
+         (mkEor (fun _ => None) (fun _ => None) (fun _ => None) (fun _ _ _ => None)) (fun _ => 10).
+Definition ex_script (body : bytes) : list baction :=
+  [BHset (s2b "Content-Type") (s2b "application/grpc+proto"); BStatus 200; BWrite body].
+Example C09_ex_truncated :
+  let cx1 := ex_wcx CConnectStream (Some ConnC) in
+  let cx2 := ex_wcx CGrpcWeb (Some WebC) in
+  let r1 := fst (run_script cx1 (ex_script (h "00000000036162")) (rw_init []) []) in
+  let r2 := fst (run_script cx2 (ex_script (h "00000000036162630000")) (rw_init []) []) in
+  (c_end_written (r_core r1) = false /\ mid_unit (r_w r1)) /\ (c_end_written (r_core r2) = false /\ mid_unit (r_w r2)) /\
+  existsb carries_success (c_out (r_core (fst (fst (serve_response cx1 [] (ex_script (h "00000000036162"))))))) = false.
+Proof.
+  vm_compute. repeat split; try reflexivity; try discriminate.
+Qed.
